@@ -377,3 +377,8 @@ func ReachingStore(v ssa.Value) *ssa.Store {
 	}
 	return found
 }
+
+// ReachCutAvoid: blocks reachable from `from` with the edges in cut removed and without entering the blocks in avoid.
+func ReachCutAvoid(from *ssa.BasicBlock, cut map[[2]*ssa.BasicBlock]bool, avoid map[*ssa.BasicBlock]bool) map[*ssa.BasicBlock]bool {
+	return reach([]*ssa.BasicBlock{from}, avoid, cut)
+}
